@@ -131,29 +131,9 @@ def audit(xform, default_language):
     return probs, len(refs | item_ids)
 
 
-def _f9_explains(form, probs):
-    text = " ".join(probs)
-    lists = {r.get("list_name", r.get("list name")) for r in form.get("choices", [])}
-    m = re.findall(r"(?:itextId '|jr:itext\(')(.+?)-(\d+)'\)? has no text", text)
-    if not m or "lacks ids" in text or "twice" in text or "marked default" in text or "no itext block" in text:
-        return False
-    if len(m) != len(probs):
-        return False      # some other reference dangles too
-    if any(lst not in lists for lst, _ in m):
-        return False
-    for lst, idx in m:
-        rows = [r for r in form.get("choices", []) if r.get("list_name", r.get("list name")) == lst]
-        if int(idx) >= len(rows):
-            return False
-        row = rows[int(idx)]
-        if any(k.split("::")[0].split(":")[0].strip().lower() in ("label", "media", "image", "audio", "video", "big-image", "caption") for k in row):
-            return False
-    return True
-
-
 def classify(form, probs):
-    """finding F9: every dangling id is the itextId of a choice row that has neither label nor media"""
-    return "F9-unlabelled-choice-itextid" if _f9_explains(form, probs) else None
+    """no listed finding is left for this property (F9 and F50 were repaired in /repo)"""
+    return None
 
 
 def _check(args):
@@ -267,9 +247,7 @@ def oracle(seed, tier, searching=False):
     }
 
 
-FINDING_INPUTS = {"F9-unlabelled-choice-itextid": {
-    "survey": [{"type": "select_one l", "name": "q", "label::en": "Q", "label::fr": "Q"}],
-    "choices": [{"list_name": "l", "name": "a", "label::en": "A", "label::fr": "A"}, {"list_name": "l", "name": "b"}]}}
+FINDING_INPUTS = {}
 
 
 def replay_finding(slug):
